@@ -13,13 +13,15 @@ firmware step-accumulator recurrence.
 """
 import os, json, ast
 from .common import pyval, Infra, REPO, VERIF
+from . import sitecov
 
 GEN_FUNCTIONS = ['move_dist_lt', 'moveDistLM', 'moveDistLMA']
 RULE = ('per model path (clear: first-tick rate <0 / =0 with accel <0,=0,>0 / >0; given accumulator 0 / 2^31-1 / other), '
         'magnitudes tiny / table-like / maximal (T up to 2^32 with every per-tick rate within +-(2^31-1)), odd/even and '
         '+-accel, start accumulator chosen so that the total lands on / next to a multiple of 2^31, sign reversal '
         'mid-move, exhaustive box |rate|,|accel| <= 6, T <= 10, pinned test table; ambient dps random in {5,15,30,50}; '
-        'a case is non-trivial when T >= 1 (all are); distinct by (rate, accel, T, accumulator)')
+        'a case is non-trivial when T >= 1 (all are); distinct by (rate, accel, T, accumulator); plus the "sitecov" stream: '
+        'every comparison of the CURRENT move_dist_lt source driven to lhs == rhs, +-1 and both outcomes (harness/sitecov.py)')
 TRUSTED = ['translator/pynum2lean.py and the Py.Val operator library (validated by this correspondence run)',
            'Rounding.ieee as model of binary64 division and mpmath round-to-nearest at prec bits (validated by this run; '
            'its exactness contract is proved in Lean: Plotink.contractExact_ieee)',
@@ -214,6 +216,36 @@ def gen_case(rng):
     return rate, accel, T, acc
 
 
+def gen_plain(rng):
+    """one in-domain case WITHOUT any boundary bias (T log-uniform, acceleration and first-tick rate uniform over what
+    the domain allows for that T).  Used only when SITECOV_ONLY is set: the experiment that measures what the sitecov
+    stream finds on its own (hand-written boundary generators disabled)"""
+    T = rng.randint(1, 2 ** rng.randint(1, 24))
+    amax = min(2 * (M - 1) // (T - 1) if T >= 2 else 2 ** 32, 2 ** 32)
+    accel = rng.randint(-amax, amax)
+    span = (T - 1) * accel
+    lo, hi = -(M - 1) - min(0, span), (M - 1) - max(0, span)
+    r1 = rng.randint(lo, hi)
+    rate = r1 - accel + trunc_half(accel)
+    acc = 'clear' if rng.random() < 0.5 else rng.randint(0, M - 1)
+    return rate, accel, T, acc
+
+
+def in_domain(c):
+    """the property's quantifier on (rate, accel, T, acc) - the same test the pipeline applies"""
+    rate, accel, T, acc = c
+    if not all(type(x) is int for x in (rate, accel, T)) or not (acc == 'clear' or type(acc) is int):
+        return False
+    if T < 1 or T > 2 ** 32 or (acc != 'clear' and not (0 <= acc < M)):
+        return False
+    okc, _ = closed(rate, accel, T, start_acc(rate, accel, acc))
+    return okc and not (T == 1 and abs(accel) > 2 ** 32)
+
+
+SITECOV_ONLY = bool(os.environ.get('SITECOV_ONLY'))      # experiment switch, see gen_plain
+SITECOV_OFF = bool(os.environ.get('SITECOV_OFF'))        # experiment control: no sitecov stream
+
+
 def small_box():
     out = []
     for rate in range(-6, 7):
@@ -259,6 +291,11 @@ def run(ctx):
             i = v['input']
             cases.append((int(i['rate']), int(i['accel']), int(i['T']), i['acc'] if i['acc'] == 'clear' else int(i['acc']),
                           int(i.get('dps', 15))))
+    elif SITECOV_ONLY:
+        for _ in range(ctx.n(3000)):
+            cases.append(gen_plain(rng) + (rng.choice(DPS),))
+        ctx.notes.append('SITECOV_ONLY: corpus, pinned table, hand-made cases, small box and the boundary-biased generator '
+                         'are disabled; inputs = unbiased random cases + the sitecov stream')
     else:
         base = corpus_cases() + pinned_table() + handmade()
         for c in pinned_table():                 # the deprecated wrapper's pinned inputs and mirrored table rows
@@ -272,96 +309,113 @@ def run(ctx):
         for _ in range(ctx.n(24000)):
             cases.append(gen_case(rng) + (rng.choice(DPS),))
 
-    # --- oracle (independent of the model) and domain filter
-    todo, brute_checked, closed_only = [], 0, 0
-    for (rate, accel, T, acc, dps) in cases:
-        if T < 1 or T > 2 ** 32 or (acc != 'clear' and not (0 <= acc < M)):
-            ctx.out_of_domain.append({'input': [rate, accel, T, acc], 'why': 'T or accumulator outside the domain'})
-            continue
-        a0 = start_acc(rate, accel, acc)
-        okc, totc = closed(rate, accel, T, a0)
-        if T <= BRUTE_MAX:
-            okb, totb = brute(rate, accel, T, a0)
-            if (okb, totb) != (okc, totc):
-                raise Infra(f'C01 oracle: closed form and brute force differ on {(rate, accel, T, acc)}: '
-                            f'{(okb, totb)} vs {(okc, totc)}')
-            brute_checked += 1
-        else:
-            closed_only += 1
-        if not okc or (T == 1 and abs(accel) > 2 ** 32):
-            ctx.out_of_domain.append({'input': [rate, accel, T, acc], 'why': 'a per-tick rate exceeds 2^31-1'})
-            continue
-        todo.append((rate, accel, T, acc, dps, (totc // M, totc % M)))
-    ctx.notes.append(f'oracle: {brute_checked} cases by brute-force recurrence (closed form cross-checked on each), '
-                     f'{closed_only} by closed form only (T > {BRUTE_MAX})')
+    totals = [0, 0]
 
-    # --- model side through the driver
-    lines, slots = [], []
-    for idx, (rate, accel, T, acc, dps, want) in enumerate(todo):
-        a = f'{rate} {accel} {T} {acc}'
-        lines.append(f'gen move_dist_lt {dps} {a}'); slots.append((idx, 'lt'))
-        lines.append(f'c01 {"spec" if T <= BRUTE_MAX else "closed"} {a}'); slots.append((idx, 'spec'))
-        if idx % 3 == 0 or idx < 600:
-            lines.append(f'gen moveDistLMA {dps} {a}'); slots.append((idx, 'lma'))
-            lines.append(f'gen moveDistLM {dps} {rate} {accel} {T}'); slots.append((idx, 'lm'))
-    model = {}
-    if ctx.driver:
-        for (idx, k), out in zip(slots, ctx.driver.batch(lines)):
-            model[(idx, k)] = out
+    def pipeline(cases):
+        """domain filter + oracle, model through the driver, real code, comparison - for one list of cases"""
+        # --- oracle (independent of the model) and domain filter
+        todo, brute_checked, closed_only = [], 0, 0
+        for (rate, accel, T, acc, dps) in cases:
+            if T < 1 or T > 2 ** 32 or (acc != 'clear' and not (0 <= acc < M)):
+                ctx.out_of_domain.append({'input': [rate, accel, T, acc], 'why': 'T or accumulator outside the domain'})
+                continue
+            a0 = start_acc(rate, accel, acc)
+            okc, totc = closed(rate, accel, T, a0)
+            if T <= BRUTE_MAX:
+                okb, totb = brute(rate, accel, T, a0)
+                if (okb, totb) != (okc, totc):
+                    raise Infra(f'C01 oracle: closed form and brute force differ on {(rate, accel, T, acc)}: '
+                                f'{(okb, totb)} vs {(okc, totc)}')
+                brute_checked += 1
+            else:
+                closed_only += 1
+            if not okc or (T == 1 and abs(accel) > 2 ** 32):
+                ctx.out_of_domain.append({'input': [rate, accel, T, acc], 'why': 'a per-tick rate exceeds 2^31-1'})
+                continue
+            todo.append((rate, accel, T, acc, dps, (totc // M, totc % M)))
+        totals[0] += brute_checked
+        totals[1] += closed_only
 
-    def call(fn, dps, *args):
-        mpmath.mp.dps = dps
-        try:
-            return True, fn(*args)
-        except Exception as ex:       # noqa: the property promises a value
-            return False, f'{type(ex).__name__}: {ex}'
-
-    try:
+        # --- model side through the driver
+        lines, slots = [], []
         for idx, (rate, accel, T, acc, dps, want) in enumerate(todo):
-            inp = {'rate': rate, 'accel': accel, 'T': T, 'acc': acc, 'dps': dps}
-            key = (rate, accel, T, acc)
-            ctx.count(key, path_id(rate, accel, acc))
-            wants = f'({want[0]} {want[1]})'
-            # Lean Spec vs Python oracle: both are statements of the same recurrence
-            sp = model.get((idx, 'spec'))
-            if sp is not None and sp != wants:
-                raise Infra(f'C01: Lean Spec {sp} and Python oracle {wants} differ on {inp}')
-            ok, r = call(ebb_calc.move_dist_lt, dps, rate, accel, T, acc)
-            impl = pyval(tuple(r)) if ok and isinstance(r, (tuple, list)) else (pyval(r) if ok else 'EXC ' + r)
-            if idx % 997 == 0 or idx < 3:
-                ctx.sample({'input': inp, 'impl': impl, 'recurrence': wants})
-            m = model.get((idx, 'lt'))
-            if m is not None and m != impl:
-                ctx.disagree('move_dist_lt', inp, impl, m)
-            if impl != wants:
-                ctx.violate('move_dist_lt differs from the firmware recurrence', inp, impl, wants,
-                            key='lt-recurrence' + (':clear' if acc == 'clear' else ''))
-            if (idx, 'lma') in model or (not ctx.driver and idx % 3 == 0):
-                ok2, r2 = call(ebb_motion.moveDistLMA, dps, rate, accel, T, acc)
-                impl2 = pyval(tuple(r2)) if ok2 and isinstance(r2, (tuple, list)) else (pyval(r2) if ok2 else 'EXC ' + r2)
-                ctx.count(('lma',) + key, 'alias:moveDistLMA')
-                m2 = model.get((idx, 'lma'))
-                if m2 is not None and m2 != impl2:
-                    ctx.disagree('moveDistLMA', inp, impl2, m2)
-                if impl2 != wants:
-                    ctx.violate('moveDistLMA differs from the firmware recurrence', inp, impl2, wants, key='lma-alias')
-                # moveDistLM: step position from a zero accumulator
-                a0 = 0
-                okc, tot0 = closed(rate, accel, T, a0)
-                want3 = str(tot0 // M)
-                ok3, r3 = call(ebb_motion.moveDistLM, dps, rate, accel, T)
-                impl3 = pyval(r3) if ok3 else 'EXC ' + r3
-                ctx.count(('lm',) + key[:3], 'alias:moveDistLM')
-                m3 = model.get((idx, 'lm'))
-                if m3 is not None and m3 != impl3:
-                    ctx.disagree('moveDistLM', {'rate': rate, 'accel': accel, 'T': T, 'acc': 0, 'dps': dps}, impl3, m3)
-                if impl3 != want3:
-                    ctx.violate('moveDistLM differs from the recurrence started at accumulator 0',
-                                {'rate': rate, 'accel': accel, 'T': T, 'acc': 0, 'dps': dps}, impl3, want3, key='lm-alias')
-    finally:
-        mpmath.mp.dps = saved_dps
+            a = f'{rate} {accel} {T} {acc}'
+            lines.append(f'gen move_dist_lt {dps} {a}'); slots.append((idx, 'lt'))
+            lines.append(f'c01 {"spec" if T <= BRUTE_MAX else "closed"} {a}'); slots.append((idx, 'spec'))
+            if idx % 3 == 0 or idx < 600:
+                lines.append(f'gen moveDistLMA {dps} {a}'); slots.append((idx, 'lma'))
+                lines.append(f'gen moveDistLM {dps} {rate} {accel} {T}'); slots.append((idx, 'lm'))
+        model = {}
+        if ctx.driver:
+            for (idx, k), out in zip(slots, ctx.driver.batch(lines)):
+                model[(idx, k)] = out
 
-    if not getattr(ctx, 'replay', None):
+        def call(fn, dps, *args):
+            mpmath.mp.dps = dps
+            try:
+                return True, fn(*args)
+            except Exception as ex:       # noqa: the property promises a value
+                return False, f'{type(ex).__name__}: {ex}'
+
+        try:
+            for idx, (rate, accel, T, acc, dps, want) in enumerate(todo):
+                inp = {'rate': rate, 'accel': accel, 'T': T, 'acc': acc, 'dps': dps}
+                key = (rate, accel, T, acc)
+                ctx.count(key, path_id(rate, accel, acc))
+                wants = f'({want[0]} {want[1]})'
+                # Lean Spec vs Python oracle: both are statements of the same recurrence
+                sp = model.get((idx, 'spec'))
+                if sp is not None and sp != wants:
+                    raise Infra(f'C01: Lean Spec {sp} and Python oracle {wants} differ on {inp}')
+                ok, r = call(ebb_calc.move_dist_lt, dps, rate, accel, T, acc)
+                impl = pyval(tuple(r)) if ok and isinstance(r, (tuple, list)) else (pyval(r) if ok else 'EXC ' + r)
+                if idx % 997 == 0 or idx < 3:
+                    ctx.sample({'input': inp, 'impl': impl, 'recurrence': wants})
+                m = model.get((idx, 'lt'))
+                if m is not None and m != impl:
+                    ctx.disagree('move_dist_lt', inp, impl, m)
+                if impl != wants:
+                    ctx.violate('move_dist_lt differs from the firmware recurrence', inp, impl, wants,
+                                key='lt-recurrence' + (':clear' if acc == 'clear' else ''))
+                if (idx, 'lma') in model or (not ctx.driver and idx % 3 == 0):
+                    ok2, r2 = call(ebb_motion.moveDistLMA, dps, rate, accel, T, acc)
+                    impl2 = pyval(tuple(r2)) if ok2 and isinstance(r2, (tuple, list)) else (pyval(r2) if ok2 else 'EXC ' + r2)
+                    ctx.count(('lma',) + key, 'alias:moveDistLMA')
+                    m2 = model.get((idx, 'lma'))
+                    if m2 is not None and m2 != impl2:
+                        ctx.disagree('moveDistLMA', inp, impl2, m2)
+                    if impl2 != wants:
+                        ctx.violate('moveDistLMA differs from the firmware recurrence', inp, impl2, wants, key='lma-alias')
+                    # moveDistLM: step position from a zero accumulator
+                    a0 = 0
+                    okc, tot0 = closed(rate, accel, T, a0)
+                    want3 = str(tot0 // M)
+                    ok3, r3 = call(ebb_motion.moveDistLM, dps, rate, accel, T)
+                    impl3 = pyval(r3) if ok3 else 'EXC ' + r3
+                    ctx.count(('lm',) + key[:3], 'alias:moveDistLM')
+                    m3 = model.get((idx, 'lm'))
+                    if m3 is not None and m3 != impl3:
+                        ctx.disagree('moveDistLM', {'rate': rate, 'accel': accel, 'T': T, 'acc': 0, 'dps': dps}, impl3, m3)
+                    if impl3 != want3:
+                        ctx.violate('moveDistLM differs from the recurrence started at accumulator 0',
+                                    {'rate': rate, 'accel': accel, 'T': T, 'acc': 0, 'dps': dps}, impl3, want3, key='lm-alias')
+        finally:
+            mpmath.mp.dps = saved_dps
+
+    pipeline(cases)
+
+    # --- sitecov stream: boundary inputs for every comparison of the CURRENT source, through the same pipeline
+    if not getattr(ctx, 'replay', None) and not SITECOV_OFF:
+        valid = [c[:4] for c in cases if in_domain(c[:4])]
+        seeds = rng.sample(valid, min(len(valid), 250))
+        sitecov.stream(ctx, 'move_dist_lt', ebb_calc.move_dist_lt, seeds,
+                       rerun=lambda cs: pipeline([c + (rng.choice(DPS),) for c in cs]),
+                       moves=sitecov.Moves(domain=in_domain, lo={2: 1, 3: 0}, hi={2: 2 ** 32, 3: M - 1}), budget=3000)
+        mpmath.mp.dps = saved_dps
+    ctx.notes.append(f'oracle: {totals[0]} cases by brute-force recurrence (closed form cross-checked on each), '
+                     f'{totals[1]} by closed form only (T > {BRUTE_MAX})')
+
+    if not getattr(ctx, 'replay', None) and not SITECOV_ONLY:
         missing = [p for p in ALL_PATHS if not ctx.paths.get(p)]
         if missing:
             raise Infra(f'C01: model paths without input: {missing}')
